@@ -147,8 +147,10 @@ def run(
     if m:
         res.depth = int(m.group(1))
     res.printed = _parse_printed(proc.stdout)
-    if proc.returncode != 0 or "Error:" in out:
-        em = re.search(r"Error: (.*)", out)
+    # (TLC reports its own errors at the start of a line; the text "Error:" inside a printed value -- "TypeError:..." in a logged
+    # outcome -- is data)
+    if proc.returncode != 0 or re.search(r"^Error:", out, re.M):
+        em = re.search(r"^Error: (.*)", out, re.M)
         res.error = em.group(1) if em else f"exit {proc.returncode}"
     if coverage:
         for line in out.splitlines():
